@@ -3,7 +3,7 @@ flush/close (FL1, FL2), info sector (IS1-IS3), DK1, TS1."""
 from .framework import rule
 from .ev import (all_guards, guarded, g_call, g_cmp, g_try_ok, try_inner, product, Bad, decode_edge)
 from .mir import tstr, callee_of, path_matches, is_log_call, strip_refs, subterms, tmatch, find_sub, strip_generics
-from .fsmodel import (is_cluster_const, VM, VMD, FATVOL, call_matches, CACHE_LOADS, CACHE_MUTATORS, FAT_MUTATORS, err_returns, ok_returns, table_of_term)
+from .fsmodel import (is_cluster_const, VM, VMD, FATVOL, call_matches, CACHE_LOADS, CACHE_MUTATORS, FAT_MUTATORS, err_returns, ok_returns, maybe_ok_returns, table_of_term)
 from .dataflow import roots, root_calls, derives_from_call, var_def_terms
 from .rules_guard import has_sub, last_field, is_variant
 
@@ -893,8 +893,9 @@ def ft8(F, R):
                     changed = True
                     break
     sites = [b for b, t in fn.calls() if callee_of(t) in freeing]
-    oks = ok_returns(fn)
-    for (b, i, v) in oks:
+    # every place the answer can become Ok: an Ok built here, or a callee's result handed on as the tail expression
+    oks = maybe_ok_returns(fn)
+    for (b, i) in oks:
         reach = fn.reach([0], cut_blocks=sites)
         R.require(b not in reach, fn, "frees-chain", "delete_file_in_dir can return Ok without freeing the file's cluster chain (no update_fat(.., EMPTY) on the path): every delete leaks the file's clusters", fn.loc(b, i))
 
